@@ -55,7 +55,7 @@ def configs(tier, seed):
     # many events (sizes straddling 32 and 64: reductions built from 32- or 64-bit groups have a partial last group)
     # (more than a few words of events make the multi-word sequences too long for the budget: the line reduction of
     #  70-130 sources is decided on the plain monitor, C13)
-    for n, dw in ((45, 16),):
+    for n, dw in (() if tier == "quick" else ((45, 16),)):
         out.append({"n": n, "dw": dw, "al": 0, "attach": "direct",
                     "trg": [TRG[rnd.randrange(3)] for _ in range(n)], "montrg": "level"})
     # narrow buses: many-chunk (also non-power-of-two, padded) registers with few events
